@@ -112,43 +112,33 @@ impl<'a> ResourceRecordManager<'a> {
     ) -> impl Iterator<Item = impl Iterator<Item = &'a ResourceRecord<'a>>> {
         let key = get_key(name);
 
-        let filter_expired_resource = |resource_pair: (
-            &'a ResourceRecord,
-            &'a ResourceRecordType,
-        )|
-         -> Option<&ResourceRecord> {
-            let (resource, resource_type) = resource_pair;
-            if filter.match_filter(resource_type) {
-                Some(resource)
-            } else {
-                None
-            }
+        // The trie key is only an index: it is built by concatenating the labels, so different
+        // names can share a key (or a key prefix). Every candidate is compared by its labels.
+        let match_name = |owner: &Name| {
+            owner == name || (filter.subdomain && owner.is_subdomain_of(name))
         };
-        let mut found: Vec<Vec<&'a ResourceRecord>> = Vec::new();
 
+        let mut candidates: Vec<&'a HashMap<ResourceRecord<'a>, ResourceRecordType>> = Vec::new();
         if filter.subdomain {
             if let Some(trie) = self.resources.subtrie(&key) {
-                found = trie
-                    .iter()
-                    .map(|(_domain, resources)| {
-                        resources
-                            .iter()
-                            .filter_map(filter_expired_resource)
-                            .collect()
-                    })
-                    .collect();
+                candidates = trie.iter().map(|(_domain, resources)| resources).collect();
             };
         } else if let Some(resources) = self.resources.get(&key) {
-            found = vec![resources
-                .iter()
-                .filter_map(filter_expired_resource)
-                .collect()]
+            candidates.push(resources);
         }
 
-        found
-            .into_iter()
-            .filter(|resources| !resources.is_empty())
-            .map(|inner| inner.into_iter())
+        // one group per owner name, in the order the trie yields them
+        let mut found: Vec<(&'a Name<'a>, Vec<&'a ResourceRecord<'a>>)> = Vec::new();
+        for (resource, resource_type) in candidates.into_iter().flatten() {
+            if filter.match_filter(resource_type) && match_name(&resource.name) {
+                match found.iter_mut().find(|(owner, _)| *owner == &resource.name) {
+                    Some((_, resources)) => resources.push(resource),
+                    None => found.push((&resource.name, vec![resource])),
+                }
+            }
+        }
+
+        found.into_iter().map(|(_, inner)| inner.into_iter())
     }
 }
 
